@@ -16,19 +16,19 @@ SKIP = ('cssutils/sac.py', 'cssutils/css/cssvalue.py', 'conftest.py')
 
 
 def run(chk):
-    r15a(chk)
-    r15b(chk)
-    r15c(chk)
-    r15d(chk)
+    chk.attempt(r15a, chk)
+    chk.attempt(r15b, chk)
+    chk.attempt(r15c, chk)
+    chk.attempt(r15d, chk)
     from .c16 import r16b
     from .c09 import r09d
 
-    r16b(chk, 'R15.e')
-    r09d(chk, 'R15.f')
-    r15g(chk)
-    r15h(chk)
-    r15i(chk)
-    r15j(chk)
+    chk.attempt(r16b, chk, 'R15.e')
+    chk.attempt(r09d, chk, 'R15.f')
+    chk.attempt(r15g, chk)
+    chk.attempt(r15h, chk)
+    chk.attempt(r15i, chk)
+    chk.attempt(r15j, chk)
 
 
 def _is_filtered(e):
